@@ -158,8 +158,8 @@ func runIoCase(c *ioCase) (impl, pred string) {
 		cleanup()
 		return "starterr sentinel=" + sent, pred
 	}
-	// the client must not speak a protocol outside its allowed list
-	if c.launch != "reattach" {
+	// the client must not speak a protocol outside its allowed list (whatever the launch method)
+	{
 		okp := false
 		for _, a := range cfg.AllowedProtocols {
 			if a == client.Protocol() {
